@@ -323,14 +323,24 @@ def suite(tier, seed):
         if os.path.exists(cp):
             return json.load(open(cp))
         t0 = time.time()
-        build_harness()
+        harness_ok = True
+        try:
+            build_harness()
+        except ToolError as e:
+            # an API-changing edit of /repo can break the in-crate harness; the unmodified main() is still judged through
+            # the real-binary leg, and the evidence says that the harness part is missing
+            harness_ok = False
+            log("engine suite: harness does not build against this tree - real-binary leg only:", str(e)[-400:])
         mc = run_mc(tier)
-        groups = make_jobs(tier, seed)
-        beh = tlc_behaviours(tier, seed)
-        groups.append(("tlc_replay", {"mode": "replay", "max_changes": 99, "signals": True, "max_steps": 400}, beh))
-        log("engine suite: %d TLC-generated behaviours to replay" % len(beh))
         tag = "e%s%d_%d" % (tier[0], seed, os.getpid())
-        jobs = shard(groups, NCPU, seed, tag)
+        if harness_ok:
+            groups = make_jobs(tier, seed)
+            beh = tlc_behaviours(tier, seed)
+            groups.append(("tlc_replay", {"mode": "replay", "max_changes": 99, "signals": True, "max_steps": 400}, beh))
+            log("engine suite: %d TLC-generated behaviours to replay" % len(beh))
+            jobs = shard(groups, NCPU, seed, tag)
+        else:
+            jobs = []
         log("engine suite: %d zv jobs" % len(jobs))
         with cf.ThreadPoolExecutor(NCPU) as ex:
             zres = list(ex.map(run_zv, jobs))
@@ -411,6 +421,7 @@ def suite(tier, seed):
                 res["tool_errors"].append({"job": "conf:" + c["name"], "what": c["error"]})
         if res["conformance"]["drift_count"]:
             log("engine suite: DRIFT - %d run(s) the design specification could not follow" % res["conformance"]["drift_count"])
+        res["harness_built"] = harness_ok
         res["nontrivial"] = {p: len(s) for p, s in seen_nt.items()}
         res["wall_s"] = round(time.time() - t0, 1)
         for name, st in mc.items():
@@ -454,6 +465,7 @@ def describe(pid, res):
         "harness_runs_by_group": res["by_group"], "run_statuses": res["statuses"], "trace_events": res["events"],
         "conformance_to_Engine_tla": res.get("conformance"),
         "tlc_generated_behaviours_replayed_into_the_code": res.get("tlc_replay"),
+        "harness_built_against_this_tree": res.get("harness_built", True),
     }
     assumptions = [
         "Engine.tla abstractions: relay may take any sender's oldest message; handler-local updates atomic with the receive; "
